@@ -78,6 +78,10 @@ def analyze(ctx, body):
                         res['exits'].append({'block': bi, 'idx': si, 'kind': 'const_false', 'ok': True, 'why': ''})
                     else:
                         ok, why = _true_exit_ok(fn, bi, loops)
+                        if ok and not _to_accepted_before(fn, bi, to):
+                            ok, why = False, ('answers true although `to` itself was never put to the validity checker: the last state asked '
+                                              'about is interpolate(from, to, 1), which rounding can make differ from `to` - and `to` is the '
+                                              'state that gets stored')
                         res['exits'].append({'block': bi, 'idx': si, 'kind': 'const_true', 'ok': ok, 'why': why})
                 else:
                     ts = fn.rvalue_terms(rv, (bi, si))
@@ -196,6 +200,9 @@ def _validated_loop(ctx, fn, L, frm, to):
             ok = True                                            # lo..n+1 , t = i/n
         elif not inclusive and lo_c == 0 and _is_plus_one(num, idx_terms) and strip_clone(hi) == strip_clone(den):
             ok = True                                            # 0..n , t = (i+1)/n
+        elif not inclusive and num == idx_terms and strip_clone(hi) == strip_clone(den):
+            ok = True                                            # lo..n , t = i/n: the interior only; the end point is
+            info['open_end'] = True                              # asked about directly (every true exit needs is_valid(to))
     if not ok:
         info['problems'].append('the last iteration does not evaluate t = 1 (range %s..%s%s, t = %s)' % (
             fmt_terms(lo)[:20], '=' if inclusive else '', fmt_terms(hi)[:40], fmt_terms(a_t)[:60]))
@@ -416,6 +423,19 @@ def _leads_to_false_only(fn, start):
         for s in fn.succs(b):
             st.append(s)
     return True
+
+
+def _to_accepted_before(fn, block, to):
+    """every path to `block` passes the accepting edge of a validity query on the `to` parameter itself"""
+    edges = set()
+    for b in range(fn.nb):
+        t = fn.blocks[b]['term']
+        if fn.blocks[b]['cleanup'] or t['k'] != 'call' or t['func'].get('path') != IS_VALID:
+            continue
+        if _is_param(fn.arg_terms(t, 1, b), to):
+            te, _fe = call_true_edges(fn, b)
+            edges |= set(te)
+    return bool(edges) and fn.dominated_by_edges(block, edges)
 
 
 def _true_exit_ok(fn, block, loops):
